@@ -352,6 +352,10 @@ def run(ctx, res, pid):
     from harness.lib import consumer_fullstack
 
     consumer_fullstack.run_stage(ctx, res, pid, ctx.scale(150, 4000))
+    if pid in ("C03", "C13"):
+        # the group coordinator hangs with a commit in flight and dies, the commit is retried at the broker that took the
+        # group over, the old broker returns as coordinator: the stored offset is the one the consumer was told
+        consumer_fullstack.run_stage(ctx, res, pid, ctx.scale(40 if pid == "C03" else 15, 800), gen=consumer_fullstack.gen_outage_spec, label="fullstack-outage")
     if pid in ("C02", "C14"):
         # messages larger than the fetch buffer through the REAL client: the buffer grows, everything is delivered
         consumer_fullstack.growth_stage(ctx, res, pid, ctx.scale(25, 600), mine=("C02", "C14") if pid == "C02" else ("C14",))
